@@ -190,6 +190,9 @@ class World:
         self.parse_steps = 0
         self.parse_step_budget = None
         self.unsupported = None
+        self.hot = False
+        self.hot_path = None
+        self.chase = None           # race-directed scheduling state (see run())
 
     # -- bookkeeping -------------------------------------------------------
     def count_fault(self, kind, n=1):
@@ -201,6 +204,9 @@ class World:
     def log_event(self, inc, op, path, res, n=0):
         ev = (self.step, inc.task.name if inc else "-", inc.no if inc else 0, op, path, res, n)
         self.log.append(ev)
+        # a check-then-act window has just opened (stat said "absent"): scheduling hot spot
+        self.hot = (op == "stat" and res == "ENOENT")
+        self.hot_path = path
         for ob in self.observers:
             ob(self, ev)
         return ev
@@ -512,7 +518,8 @@ class World:
         task.thread = th
         th.start()
 
-    def run(self, restart_crashed=True, max_restarts=3, switch_p=0.3):
+    def run(self, restart_crashed=True, max_restarts=3, switch_p=0.3, hot_switch_p=0.5,
+            chase_p=0.35):
         """Run all tasks to completion under the tape-driven scheduler."""
         old_stack = threading.stack_size()
         threading.stack_size(128 * 1024 * 1024)
@@ -544,8 +551,35 @@ class World:
                     self._spawn(t)
                     continue
                 # pick who runs: 0 = keep the current task
-                if cur in runnable and len(runnable) > 1:
-                    if self.tape.bool(switch_p, "switch"):
+                if self.chase is not None:
+                    # race-directed scheduling: task `home` sits in a check-then-act window on
+                    # `path` (its stat just said "absent"); `runner` is driven until it creates that
+                    # very path (or ends, or the budget is spent), then `home` resumes.
+                    ch = self.chase
+                    ch["budget"] -= 1
+                    if ch["runner"] in runnable and not ch["done"] and ch["budget"] > 0:
+                        cur = ch["runner"]
+                        if cur.pending[0] == "mkdir" and cur.pending[1] == ch["path"]:
+                            ch["done"] = True
+                    else:
+                        self.chase = None
+                        if ch["done"]:
+                            self.probe("chase_completed")
+                        if ch["home"] in runnable:
+                            cur = ch["home"]
+                        elif cur not in runnable:
+                            cur = runnable[self.tape.choose(len(runnable), "pick")]
+                elif cur in runnable and len(runnable) > 1:
+                    if self.hot and self.tape.bool(chase_p, "chase"):
+                        others = [t for t in runnable if t is not cur]
+                        runner = others[self.tape.choose(len(others), "chase-runner")]
+                        self.chase = {"path": self.hot_path, "home": cur, "runner": runner,
+                                      "done": False, "budget": 400}
+                        cur = runner
+                        self.switches += 1
+                        if cur.pending[0] == "mkdir" and cur.pending[1] == self.chase["path"]:
+                            self.chase["done"] = True
+                    elif self.tape.bool(hot_switch_p if self.hot else switch_p, "switch"):
                         others = [t for t in runnable if t is not cur]
                         cur = others[self.tape.choose(len(others), "switch-to")]
                         self.switches += 1
